@@ -119,20 +119,20 @@ theorem finalizeCols_pages (D : Deps) (w : W) : ∀ (cols : List Col) (cws : Lis
     (bytes : Bytes) (metas : List ChunkMeta),
     (∀ cw ∈ cws, ColInv D w.codec cw) →
     finalizeCols D w cols cws off = some (bytes, metas) →
-    ∃ pss, bytes = groupBytes D pss ∧ AllChunks D w.codec metas pss := by
+    bytes = groupBytes D (finalizeColsPages D w cols cws) ∧
+    AllChunks D w.codec metas (finalizeColsPages D w cols cws) := by
   intro cols
   induction cols with
   | nil =>
     intro cws off bytes metas _ h
-    refine ⟨[], ?_⟩
-    cases cws <;> simp [finalizeCols] at h <;> (obtain ⟨h1, h2⟩ := h; subst h1; subst h2; simp [groupBytes, AllChunks])
+    cases cws <;> simp [finalizeCols] at h <;> (obtain ⟨h1, h2⟩ := h; subst h1; subst h2; simp [groupBytes, AllChunks, finalizeColsPages])
   | cons c cs ih =>
     intro cws off bytes metas hinv h
     cases cws with
     | nil =>
       simp [finalizeCols] at h
       obtain ⟨h1, h2⟩ := h; subst h1; subst h2
-      exact ⟨[], by simp [groupBytes, AllChunks]⟩
+      simp [groupBytes, AllChunks, finalizeColsPages]
     | cons cw cws =>
       simp only [finalizeCols] at h
       cases hf : flushPage D w.codec c cw with
@@ -144,9 +144,10 @@ theorem finalizeCols_pages (D : Deps) (w : W) : ∀ (cols : List Col) (cws : Lis
         | some p =>
           obtain ⟨b2, m2⟩ := p
           simp only [hr, Option.some.injEq, Prod.mk.injEq] at h
-          obtain ⟨pss, i1, i2⟩ := ih cws _ b2 m2 (fun x hx => hinv x (List.mem_cons_of_mem _ hx)) hr
+          obtain ⟨i1, i2⟩ := ih cws _ b2 m2 (fun x hx => hinv x (List.mem_cons_of_mem _ hx)) hr
           obtain ⟨⟨c1, c2, c3, c4, c5⟩, c0⟩ := flushPage_colInv D w.codec c cw cw' (hinv cw (List.mem_cons_self ..)) hf
-          refine ⟨cw'.pages :: pss, ?_, ?_⟩
+          simp only [finalizeColsPages, hf]
+          refine ⟨?_, ?_⟩
           · rw [← h.1, i1, c1]; simp [groupBytes]
           · rw [← h.2]
             refine ⟨⟨?_, ?_, ?_, rfl, c5⟩, i2⟩
@@ -157,12 +158,13 @@ theorem finalizeCols_pages (D : Deps) (w : W) : ∀ (cols : List Col) (cws : Lis
 /-- page-structure invariant of writer states -/
 def PInv (D : Deps) (codec : Nat) (w : W) : Prop :=
   w.codec = codec ∧
-  (∃ gs, (w.headerWritten = true → w.out.flatten = magic ++ dataBytes D gs) ∧ AllGroups D codec w.rowGroups gs) ∧
+  ((w.headerWritten = true → w.out.flatten = magic ++ dataBytes D w.pagesDone) ∧
+   AllGroups D codec w.rowGroups w.pagesDone ∧ (w.headerWritten = false → w.pagesDone = [])) ∧
   (∀ cws, w.rg = some cws → ∀ cw ∈ cws, ColInv D codec cw)
 
 theorem pinv_init (D : Deps) (cols : List Col) (codec pageSize : Nat) (createdBy : String) :
     PInv D codec { cols := cols, codec := codec, pageSize := pageSize, createdBy := createdBy } := by
-  refine ⟨rfl, ⟨[], fun h => by simp at h, trivial⟩, fun cws h => by simp at h⟩
+  refine ⟨rfl, ⟨fun h => by simp at h, trivial, fun _ => rfl⟩, fun cws h => by simp at h⟩
 
 theorem pinv_ensureHeader (D : Deps) (codec : Nat) (w : W) (h : PInv D codec w) (ha : AllInv w) :
     PInv D codec (ensureHeader w) := by
@@ -170,13 +172,13 @@ theorem pinv_ensureHeader (D : Deps) (codec : Nat) (w : W) (h : PInv D codec w) 
   by_cases hw : w.headerWritten = true
   · simpa [hw] using h
   · have hf : w.headerWritten = false := by simpa using hw
-    obtain ⟨h1, ⟨gs, _, h3⟩, h4⟩ := h
+    obtain ⟨h1, ⟨_, h3, h3'⟩, h4⟩ := h
     have ho := ha.1.1 hf
-    have hg := ha.2.2 hf
+    have hp := h3' hf
     simp only [hf]
-    refine ⟨h1, ⟨[], fun _ => ?_, ?_⟩, h4⟩
-    · simp [ho, dataBytes]
-    · simp only [Bool.false_eq_true, if_false]; rw [hg]; trivial
+    refine ⟨h1, ⟨fun _ => ?_, ?_, fun hx => by simp at hx⟩, h4⟩
+    · simp [ho, dataBytes, hp]
+    · simpa using h3
 
 theorem pinv_ensureRowGroup (D : Deps) (codec : Nat) (w : W) (h : PInv D codec w) :
     PInv D codec (ensureRowGroup w) := by
@@ -254,17 +256,17 @@ theorem pinv_flushRowGroup (D : Deps) (codec : Nat) (w : W) (h : PInv D codec w)
     | none => exact h
     | some p =>
       obtain ⟨bytes, metas⟩ := p
-      obtain ⟨h1, ⟨gs, h2, h3⟩, h4⟩ := h
-      obtain ⟨pss, p1, p2⟩ := finalizeCols_pages D w w.cols cws w.fileOffset bytes metas
+      obtain ⟨h1, ⟨h2, h3, _⟩, h4⟩ := h
+      obtain ⟨p1, p2⟩ := finalizeCols_pages D w w.cols cws w.fileOffset bytes metas
         (fun cw hcw => by rw [h1]; exact h4 cws hr cw hcw) hf
       rw [h1] at p2
       subst p1
       simp only
-      refine ⟨h1, ⟨gs ++ [pss], fun _ => ?_, ?_⟩, fun cws' hc' => by simp at hc'⟩
+      refine ⟨h1, ⟨fun _ => ?_, ?_, fun hx => by simp [hh] at hx⟩, fun cws' hc' => by simp at hc'⟩
       · have hout := h2 hh
-        by_cases hb : 0 < (groupBytes D pss).length
+        by_cases hb : 0 < (groupBytes D (finalizeColsPages D w w.cols cws)).length
         · simp [hb, hout, dataBytes, List.append_assoc]
-        · have hb0 : groupBytes D pss = [] := List.eq_nil_of_length_eq_zero (by omega)
+        · have hb0 : groupBytes D (finalizeColsPages D w w.cols cws) = [] := List.eq_nil_of_length_eq_zero (by omega)
           simp [hb0, hout, dataBytes]
       · exact allGroups_append D codec _ _ _ _ h3 p2
 
